@@ -321,5 +321,6 @@ class VhdSuite(Suite):
 
 SUITES = {"vhd": VhdSuite()}
 
-from harness.readers import under_O  # noqa: E402
+from harness.readers import under_O, under_debug  # noqa: E402
 SUITES["vhd_pyO"] = under_O(SUITES["vhd"])
+SUITES["vhd_dbg"] = under_debug(SUITES["vhd"])
